@@ -34,7 +34,7 @@ ALL_FAMILIES = [
     "inter", "star", "slash", "power", "group", "group_slope", "group_cat",
     "group_inter_factor", "group_multi_factor", "group_transform", "group_box",
     "resp_level", "resp_prop", "resp_cat", "resp_none", "nointercept", "extra", "dotted", "onelevel", "npwarn",
-    "paren", "minus", "catcall", "nestedbox", "knots", "floatcat", "nsenc", "innerbounds",
+    "paren", "minus", "catcall", "nestedbox", "knots", "floatcat", "nsenc", "innerbounds", "userenc",
 ]
 
 
@@ -119,6 +119,7 @@ class Gen:
                 "set_config": r.choice([1, 2, 4]) + (3 if self.prop == "C10" else 0),
                 "refill": r.choice([0, 1, 2]),
                 "loop": r.choice([0, 1, 2]),
+                "register": r.choice([0, 0, 1]) if self.prop == "C07" else 0,
                 "scribble": r.choice([0, 1, 2]),
                 "drop": r.choice([0, 1]),
                 "rebuild": r.choice([0, 1, 2]),
@@ -340,6 +341,8 @@ class Gen:
             opts += [("floatcat", 2)]
         if "nsenc" in fam:
             opts += [("nsenc", 2)]
+        if "userenc" in fam:
+            opts += [("userenc", 2)]
         if "nestedbox" in fam:
             opts += [("nestedbox", 1)]
         if not opts:
@@ -349,6 +352,10 @@ class Gen:
             return Item("f1", ["f1"], cats=["f1"], fams=["onelevel"])
         if kind == "floatcat":
             return Item(r.choice(["C(dz)", "S(dz)", "T(dz)", "C(dz, Sum)"]), ["dz"], cats=["dz"], fams=["box", "floatcat"])
+        if kind == "userenc":
+            # a user-defined Encoding subclass whose contrast matrix has fractional entries
+            v = r.choice([c for c in STR_COLS if c not in avoid] or STR_COLS)
+            return Item(f"C({v}, {r.choice(['Helmert', 'hel0'])})", [v], cats=[v], fams=["box", "userenc"])
         if kind == "nsenc":
             # an Encoding INSTANCE owned by the caller (tr0 = Treatment(), sm0 = Sum()) used by several designs
             v = r.choice([c for c in STR_COLS if c not in avoid] or STR_COLS)
@@ -691,6 +698,13 @@ class Gen:
             keep = [c for c in keep if c in needed or r.random() < 0.5]
         cols = [c for c in spec["cols"] if c[0] in keep]
         cols = [[c[0], c[1], list(c[2]), c[3]] for c in cols]
+        for c in cols:
+            # the same values written into a Categorical whose (unordered) categories are listed in another
+            # order -- what rebuilding the column from its values does
+            if c[1] == "cat" and not c[3]["ordered"] and r.random() < 0.4:
+                cats = list(c[3]["categories"])
+                r.shuffle(cats)
+                c[3] = {"categories": cats, "ordered": False}
         r.shuffle(cols)
         n = F.n_rows(spec)
         return {"cols": cols, "index": self.make_index(n)}
@@ -978,9 +992,13 @@ class Gen:
 
         current = {}  # frame id -> content after the refills generated so far (self.frames keeps the initial one)
 
-        def do_refill(fid):
+        def do_refill(fid, shrink=False):
             spec = current.get(fid, self.frames[fid])
-            # new numbers / permuted levels, same shape, same columns
+            n_old = F.n_rows(spec)
+            if shrink and n_old > 1:
+                # the caller deletes rows of that very object in place before asking again
+                spec = F.take_rows(spec, list(range(r.randint(1, n_old - 1))))
+            # new numbers / permuted levels, same columns
             new = {"cols": [], "index": list(spec["index"])}
             for name, kind, values, extra in spec["cols"]:
                 if kind == "float" and name not in ("dz", "k"):
@@ -1016,7 +1034,7 @@ class Gen:
             self.frames[fid] = spec
             emit_eval(d, part, fid, "fresh")
             for _ in range(r.choice([1, 1, 2])):
-                do_refill(fid)
+                do_refill(fid, shrink=r.random() < 0.35)
                 emit_eval(d, part, fid, "fresh")
             others = [x for x in designs if x["train"] == d["train"] and x["id"] != d["id"]]
             if others and r.random() < 0.6:
@@ -1040,6 +1058,7 @@ class Gen:
                 mode = r.choice(MODES)
                 add({"op": "set_config", "style": style, "key": KEY, "value": mode, "valid": True})
 
+        registered = []
         do_build()
         while len(ops) < n_ops:
             kinds_w = {
@@ -1048,6 +1067,7 @@ class Gen:
                 "set_config": w["set_config"],
                 "refill": w["refill"] if used_new else 0,
                 "loop": w.get("loop", 0),
+                "register": w.get("register", 0) if not registered else 0,
                 "scribble": w["scribble"] if results else 0,
                 "drop": w["drop"] if results else 0,
                 "rebuild": w["rebuild"],
@@ -1065,6 +1085,10 @@ class Gen:
                 do_refill(r.choice(used_new))
             elif k == "loop":
                 do_loop()
+            elif k == "register":
+                # the host program registers a stateful transform under a name the callers use for their own function
+                registered.append("uf")
+                add({"op": "register", "name": "uf"})
             elif k == "scribble":
                 add({"op": "scribble", "target": r.choice(results)["id"], "value": r.choice([-7.0, 1e6, 0.0])})
             elif k == "drop":
